@@ -301,6 +301,7 @@ class Sim(object):
         self.settled = 0
         self.in_callback = False
         self.in_handler = False
+        self.app_duration = 0
         self.late_data = False
         self.cancelled = []
         self.patient_clients = False
@@ -329,6 +330,8 @@ class Sim(object):
 
         def app(environ, start_response):
             sim.app_calls += 1
+            sim.clock += sim.app_duration        # the application takes this long (virtual time)
+            sim.app_duration = 0
             start_response("200 OK", [("Content-Length", "2")])
             return [b"ok"]
         w.wsgi = app
@@ -415,16 +418,18 @@ class Sim(object):
             for cc in list(self.worker._keep):
                 if cc.sock is fo:
                     c = cc
-            if c is not None and c.timeout is not None:
-                self.idle_deadline[fo.cid] = c.timeout
+            if c is not None:
+                # model: the keep-alive time runs from the moment the connection goes idle (its response has been sent)
+                self.idle_deadline[fo.cid] = self.clock + self.keepalive
                 self.keepalive_events += 1
 
     # ---- scheduling
     def open_conns(self):
         return [c for c in self.conns if not c.closed]
 
-    def run_one_handler(self, pick=0):
+    def run_one_handler(self, pick=0, dur=0):
         pool = self.worker.tpool
+        self.app_duration = dur
         cand = [f for f in pool.on_thread() if f.conn_arg.sock.runnable() or f.conn_arg.sock.closed]
         if not cand:
             return False
@@ -472,7 +477,7 @@ class Sim(object):
                     c.buf += REQ_KA[10:] if c.buf.endswith(REQ_KA[:10]) else b"\r\n\r\n"
                     break
         elif kind == "handler":
-            self.run_one_handler(ev[1])
+            self.run_one_handler(ev[1], ev[2] if len(ev) > 2 else 0)
         elif kind == "handler_late_data":
             self.late_data = True
             if not self.run_one_handler(ev[1]):
